@@ -7,18 +7,28 @@ package sftp
 import (
 	"bytes"
 	"fmt"
-	"unsafe"
+	"reflect"
+	"strings"
 )
 
 func init() {
 	vfRegister(&vfProp{
 		id:       "C18",
-		classes:  []string{"os-prog", "rs-prog", "os-burst", "rs-burst", "rs-burst-park", "os-prog", "rs-prog", "os-burst", "rs-burst", "rs-burst-park", "big"},
+		classes:  c18Classes(),
 		gen:      c18Gen,
 		exec:     c18Exec,
 		valid:    vfValidSessionProgram,
 		maxSteps: 60000,
 	})
+}
+
+// c18Classes: the five ordinary classes four times each, the two expensive ones (large frames, deep pipelines) rarely.
+func c18Classes() []string {
+	var out []string
+	for i := 0; i < 4; i++ {
+		out = append(out, "os-prog", "rs-prog", "os-burst", "rs-burst", "rs-burst-park")
+	}
+	return append(out, "big", "big", "deep")
 }
 
 func c18Gen(class string, seed uint64, tier string) *vfScenario {
@@ -33,6 +43,24 @@ func c18Gen(class string, seed uint64, tier string) *vfScenario {
 		}
 		sc.Ops = vfGenProgram(rng, int(sc.Cfg["kind"]), 1+rng.IntN(40))
 		sc.Cfg["sites"] = int64(1 + rng.IntN(3))
+	case "deep":
+		// one READ whose completion the scheduler may hold back, and far more than a hundred requests pipelined behind
+		// it: their replies (and the buffers they occupy) pile up in the packet manager
+		sc = &vfScenario{Cfg: map[string]int64{}}
+		sc.Cfg["kind"] = int64(rng.IntN(2))
+		sc.Cfg["sites"] = 1 | int64(2*rng.IntN(2))
+		name := "f0"
+		if sc.Cfg["kind"] == 1 {
+			sc.Cfg["parkdata"], sc.Cfg["hopt"] = 1, 1
+			name = "/f0"
+		}
+		sc.Ops = []vfOp{{K: "init", A: 3}, {K: "open", P: name, A: 1, H: 0}, {K: "wait"}, {K: "read", H: 0, Off: 0, N: 20}}
+		for i, n := 0, 125+rng.IntN(20); i < n; i++ {
+			sc.Ops = append(sc.Ops, vfOp{K: "stat", P: name})
+		}
+		sc.Cfg["holdread"] = int64(len(sc.Ops) - 4 - rng.IntN(12)) // how many of them are handled before the READ may go on
+		sc.Ops = append(sc.Ops, vfOp{K: "wait"}, vfOp{K: "close", H: 0})
+		return sc
 	case "big":
 		// large maxTxPacket, a large file, reads around the allocator's page size (see C02 class big)
 		sc = c02Gen("big", seed, tier)
@@ -53,36 +81,65 @@ func c18Gen(class string, seed uint64, tier string) *vfScenario {
 	return sc
 }
 
-// c18PageTable checks the allocator's bookkeeping (white box).
+// c18PageTable checks the allocator's bookkeeping (white box). It reads the tables by reflection, so that a change of
+// their shape (a map becoming an array, say) cannot stop the check from building: "used" may be any map, slice or array
+// whose elements are [][]byte (keyed or indexed by something derived from the order id), "available" a [][]byte.
 func c18PageTable(a *allocator) string {
 	a.Lock()
 	defer a.Unlock()
-	owner := map[uintptr]uint32{}
-	for oid, pages := range a.used {
-		for _, p := range pages {
-			if cap(p) == 0 {
+	av := reflect.ValueOf(a).Elem()
+	used, avail := av.FieldByName("used"), av.FieldByName("available")
+	if !used.IsValid() || !avail.IsValid() {
+		return "" // nothing by these names any more: the invariants on the tables cannot be evaluated (counted by the caller)
+	}
+	owner := map[uintptr]string{}
+	var dupMsg string
+	visit := func(key string, pages reflect.Value) {
+		if pages.Kind() != reflect.Slice {
+			return
+		}
+		for i := 0; i < pages.Len(); i++ {
+			pg := pages.Index(i)
+			if pg.Kind() != reflect.Slice || pg.Cap() == 0 {
 				continue
 			}
-			k := uintptr(unsafe.Pointer(unsafe.SliceData(p[:1])))
-			if o, dup := owner[k]; dup {
-				return fmt.Sprintf("one page is lent to two requests at once (order ids %d and %d)", o, oid)
+			k := pg.Pointer()
+			if o, dup := owner[k]; dup && dupMsg == "" {
+				dupMsg = fmt.Sprintf("one page is lent to two requests at once (order ids %s and %s)", o, key)
 			}
-			owner[k] = oid
+			owner[k] = key
 		}
 	}
+	switch used.Kind() {
+	case reflect.Map:
+		it := used.MapRange()
+		for it.Next() {
+			visit(fmt.Sprint(it.Key()), it.Value())
+		}
+	case reflect.Slice, reflect.Array:
+		for i := 0; i < used.Len(); i++ {
+			visit(fmt.Sprintf("slot %d", i), used.Index(i))
+		}
+	}
+	if dupMsg != "" {
+		return dupMsg
+	}
 	seen := map[uintptr]bool{}
-	for _, p := range a.available {
-		if cap(p) == 0 {
-			continue
+	if avail.Kind() == reflect.Slice {
+		for i := 0; i < avail.Len(); i++ {
+			pg := avail.Index(i)
+			if pg.Kind() != reflect.Slice || pg.Cap() == 0 {
+				continue
+			}
+			k := pg.Pointer()
+			if o, ok := owner[k]; ok {
+				return fmt.Sprintf("a page is in use by order id %s and on the free list at the same time", o)
+			}
+			if seen[k] {
+				return "a page is on the free list twice"
+			}
+			seen[k] = true
 		}
-		k := uintptr(unsafe.Pointer(unsafe.SliceData(p[:1])))
-		if o, ok := owner[k]; ok {
-			return fmt.Sprintf("a page is in use by order id %d and on the free list at the same time", o)
-		}
-		if seen[k] {
-			return "a page is on the free list twice"
-		}
-		seen[k] = true
 	}
 	return ""
 }
@@ -101,6 +158,10 @@ func c18RunOne(r *vfRun, sim *vfSim, alloc bool) *c18Outcome {
 	if alloc {
 		sc.Cfg["alloc"] = 1
 	}
+	// The two runs are compared byte for byte, so every order the servers' workers can finish in has to be the
+	// scheduler's: without the worker sites a request sent right behind the CLOSE of its handle is served by a read/write
+	// worker racing the command worker that closes - both outcomes are legal, and the Go runtime would pick.
+	sc.Cfg["sites"] = sc.cfg("sites", 3) | 1
 	rr := &vfRun{sc: sc, sim: sim, t: r.t, res: r.res}
 	var comp *vfSession
 	if sc.cfg("companion", 0) != 0 {
@@ -121,6 +182,26 @@ func c18RunOne(r *vfRun, sim *vfSim, alloc bool) *c18Outcome {
 			return nil
 		}
 		sim.count("probe.companion_session")
+	}
+	if hold := int(sc.cfg("holdread", 0)); hold > 0 {
+		// the READ (order id 3: INIT, OPEN, READ) stays in its worker until that many later requests have been handled
+		// (or nothing else is left to do)
+		site := "srv.worker"
+		if sc.cfg("kind", 0) == 1 {
+			site = "rs.worker"
+		}
+		sim.holdKey = fmt.Sprintf("h:%s:%010d", site, 3)
+		handled := 0
+		prev := sim.onStep
+		sim.onStep = func(key string) {
+			if strings.HasPrefix(key, "h:"+site+":") && key != sim.holdKey {
+				handled++
+			}
+			if prev != nil {
+				prev(key)
+			}
+		}
+		sim.holdFn = func() bool { return handled >= hold || len(sim.collect()) <= 1 }
 	}
 	s := vfStartSession(rr, sc.Ops)
 	defer s.cleanup()
